@@ -40,11 +40,16 @@ InfoOf(c) ==
       num == IF small THEN CountCodeBig(r) ELSE <<>>
       den == IF small THEN Pow(FromInt(A), r.len) ELSE <<>>
       emptied == HasEmptiedReq(r)
+      \* the refusal rule (1-p)^200 <= 1e-9, i.e. p >= 0.0984468..., is evaluated by the library in floating point: a band on the exact
+      \* fraction, tight for recipes of length <= 2 (entropies of a few bits: float32 error < 2e-6 relative), wide otherwise
+      lo == IF r.len <= 2 THEN 9838 ELSE 8500
+      hi == IF r.len <= 2 THEN 9851 ELSE 11000
+      scaled == Mul(num, FromInt(100000))
   IN [r |-> r, aset |-> aset, aseq |-> SortedSeq(aset), A |-> A, reqs |-> ReqSets(r), live |-> LiveReq(r),
       refAllowed |-> \/ ~small \/ num = <<>> \/ emptied
-                     \/ c.failRateOne = 0 /\ c.maxTrials = 200 /\ Lt(MulSmall(num, 1000), MulSmall(den, 110))
+                     \/ c.failRateOne = 0 /\ c.maxTrials = 200 /\ Lt(scaled, Mul(den, FromInt(hi)))
                      \/ c.failRateOne = 0 /\ c.maxTrials # 200,
-      refRequired |-> small /\ ~emptied /\ (num = <<>> \/ (c.failRateOne = 0 /\ c.maxTrials = 200 /\ Le(MulSmall(num, 1000), MulSmall(den, 85))))]
+      refRequired |-> small /\ ~emptied /\ (num = <<>> \/ (c.failRateOne = 0 /\ c.maxTrials = 200 /\ Le(scaled, Mul(den, FromInt(lo)))))]
 
 CellWhys(c) ==
   LET r == RecipeOf(c)
